@@ -18,7 +18,9 @@ META = {
         "declaration order coincide), events == declared set; (b) for generated machines with recording "
         "helper methods, sm.send(name) for EVERY name in dir(sm) that is not a declared event, plus "
         "random strings: must be TransitionNotAllowed (strict) or None (tolerant), state and helper log "
-        "unchanged. distinct_nontrivial = distinct style sequences with >=3 styles + distinct "
+        "unchanged. "
+        "styles include the trigger object itself handed to send(), the machine's own and one taken from another machine. "
+        "distinct_nontrivial = distinct style sequences with >=3 styles + distinct "
         "attribute-name categories swept."
     ),
     "assumptions": [
